@@ -122,7 +122,18 @@ class Model:
     def ev(self, e, env):
         if e[0] == "lit":
             return e[1]
+        if e[0] == "varf":
+            self.event("filter:" + e[2])
+            return env.lookup(e[1])
+        if e[0] == "tpl":
+            return self.to_str(env.lookup(e[1]))
         return env.lookup(e[1])
+
+    def forloop(self, env, i, n):
+        """The `forloop` value of the i-th of n iterations (with the chain of enclosing loops visible in env)."""
+        parent = env.lookup("forloop", None)
+        return {"counter0": i, "counter": i + 1, "first": i == 0, "last": i == n - 1,
+                "parentloop": parent if isinstance(parent, dict) else {}}
 
     # ------------------------------------------------------------------ page
     def render_page(self):
@@ -160,7 +171,7 @@ class Model:
                 if not isinstance(lst, list):
                     lst = list(lst) if lst else []
                 for i, v in enumerate(lst):
-                    e2 = env.push("loop", {n[1]: v, "forloop": {"counter0": i}})
+                    e2 = env.push("loop", {n[1]: v, "forloop": self.forloop(env, i, len(lst))})
                     self.render_nodes(n[3], e2, owner, prov, out, ck)
             elif k == "with":
                 e2 = env.push("with", {n[1]: self.ev(n[2], env)})
@@ -198,6 +209,11 @@ class Model:
                 else:
                     out.append("True" if _name_escape.sub("_", n[1]) in
                                {_name_escape.sub("_", f) for f in owner.fills} else "False")
+            elif k == "forloop":
+                v = env.lookup("forloop", None)
+                for _ in range(n[1]):
+                    v = v.get("parentloop") if isinstance(v, dict) else None
+                out.append(self.to_str(v.get(n[2], "")) if isinstance(v, dict) else "")
             elif k == "alias_data":
                 v = env.lookup(n[1], None)
                 out.append(self.to_str(v.get(n[2], "")) if isinstance(v, dict) else "")
@@ -307,7 +323,7 @@ class Model:
                 elif k == "for":
                     lst = e.lookup(n[2], [])
                     for i, v in enumerate(lst if isinstance(lst, list) else []):
-                        walk(n[3], e.push("loop", {n[1]: v, "forloop": {"counter0": i}}))
+                        walk(n[3], e.push("loop", {n[1]: v, "forloop": self.forloop(e, i, len(lst))}))
                 elif k == "with":
                     walk(n[3], e.push("with", {n[1]: self.ev(n[2], e)}))
                 elif k == "elem":
@@ -324,7 +340,7 @@ class Model:
                     walk(n[3], e)
                 elif k == "fault":
                     self.event("tag:" + n[1])
-                elif k == "filled":
+                elif k in ("filled", "forloop"):
                     text.append("x")
                 elif k == "alias_data":
                     v = e.lookup(n[1], None)
